@@ -99,7 +99,7 @@ func selfTestDeterminism(c *Ctx) int {
 // one interleaving (same output in different worker processes and pool shapes), different
 // seeds reach different interleavings, and the canonical schedule is creation order.
 func schedulerLab(c *Ctx) int {
-	modes := []string{"fanout", "collect", "rendezvous", "racy"}
+	modes := []string{"fanout", "collect", "rendezvous", "racy", "loadfiles", "once"}
 	nseeds := 24
 	type key struct {
 		mode  string
@@ -151,6 +151,24 @@ func schedulerLab(c *Ctx) int {
 			bad++
 			fmt.Printf("simlab fanout under the canonical schedule is not creation order: %s\n", a[i])
 		}
+	}
+	// a simulated deadlock ends the way the real process would: the pending watchdog timer
+	// fires (virtual clock jumps to it), or, without a timer, the runtime gives up
+	{
+		w := c.Pool.One()
+		for _, sch := range []string{"canon", "seeded"} {
+			a := w.Exec(&Job{Node: "simlab", Argv: []string{"deadlock-timer"}, Seed: 5, Sched: sch, Budget: 40_000_000, NsTick: nsPerTick})
+			if a.Status != "timeout" || a.Exit != 1 || !bytes.Contains(a.Stdout, []byte("deadlock watchdog")) || a.Ticks < watchdogTicks {
+				bad++
+				fmt.Printf("simlab deadlock-timer (%s): want the watchdog branch at >= %d ticks, got status=%s exit=%d ticks=%d out=%q\n", sch, watchdogTicks, a.Status, a.Exit, a.Ticks, a.Stdout)
+			}
+			b := w.Exec(&Job{Node: "simlab", Argv: []string{"deadlock-plain"}, Seed: 5, Sched: sch, Budget: 40_000_000, NsTick: nsPerTick})
+			if b.Status != "deadlock" {
+				bad++
+				fmt.Printf("simlab deadlock-plain (%s): want status deadlock, got status=%s exit=%d out=%q\n", sch, b.Status, b.Exit, b.Stdout)
+			}
+		}
+		fmt.Printf("scheduler lab deadlock  : timer and no-timer variants end as the real process would\n")
 	}
 	for _, m := range modes {
 		fmt.Printf("scheduler lab %-10s: %d distinct interleavings over %d schedules\n", m, len(distinct[m]), nseeds+2)
